@@ -17,11 +17,23 @@ def frac(x):
     if isinstance(x, np.ndarray):
         x = x.reshape(())[()]
     if isinstance(x, np.longdouble) and np.finfo(np.longdouble).bits > 64:
-        # exact conversion of extended precision through frexp
-        m, e = np.frexp(x)
-        hi = int(np.floor(m * np.longdouble(2) ** 64))
-        return Fraction(hi, 2 ** 64) * (Fraction(2) ** int(e))
+        # exact: x = hi + lo with hi the nearest double and lo the (short) remainder
+        if not np.isfinite(x):
+            return Fraction(float(x))
+        hi = np.float64(x)
+        lo = np.float64(x - np.longdouble(hi))
+        return Fraction(float(hi)) + Fraction(float(lo))
     return Fraction(float(x))
+
+
+def canon_bytes(arr):
+    """Bytes that identify the VALUE of an array (extended precision has padding bytes)."""
+    a = np.ascontiguousarray(arr)
+    if a.dtype == np.longdouble and np.finfo(np.longdouble).bits > 64:
+        hi = a.astype(np.float64)
+        lo = (a - hi.astype(np.longdouble)).astype(np.float64)
+        return hi.tobytes() + lo.tobytes() + b"g" + str(a.shape).encode()
+    return a.tobytes() + str(a.dtype).encode() + str(a.shape).encode()
 
 
 def eps_of(dtype):
@@ -60,6 +72,15 @@ def log10_class(err, scale):
     while Fraction(10) ** k < r:
         k += 1
     return max(-99, min(99, k))
+
+
+def gap_units(a, b, scale_vals, dtype):
+    """ceil(|a-b| / (eps * max(1, |scale_vals|...))) capped: distance in rounding units of unit-size-or-larger quantities."""
+    fa, fb = frac(a), frac(b)
+    if fa == fb:
+        return 0
+    sc = max([Fraction(1)] + [abs(frac(v)) for v in scale_vals])
+    return int(min(CAP, math.ceil(abs(fa - fb) / (eps_of(dtype) * sc))))
 
 
 def ulp_distance(a, b, dtype=None):
